@@ -6,7 +6,11 @@
    NEAR tn td closed01 <paths> <pts>     -> 1 if dist(point, some edge) <= tn/td
    SPEC ct fr <pathsS> <pathsC> <pts>    -> 1 if the point is in the specified result region
    AREA2 <paths>                         -> twice the signed area
-   MIND2 closed01 <paths> <pts>          -> num/den of the minimum squared distance *)
+   MIND2 closed01 <paths> <pts>          -> num/den of the minimum squared distance
+   GENPOS <paths>                        -> 1 if the closed path set is in general position (base/GenPos.v)
+   REGION tn td <pathsS> <pathsC> <pts> k (ct fr rev <pathsOut>)*k
+        -> "<nfar>" then per solution "| nbad x y" (first failing sample point, if any); all coordinates
+           as given (the caller doubles them to express half-integer sample points) *)
 open M
 open Zconv
 
@@ -31,6 +35,18 @@ let handle t =
       let es = if c then edges_closed ps else edges_open ps in
       String.concat " " (List.map (fun q -> match min_dist2 es q with
          | None -> "inf" | Some (n, d) -> string_of_z n ^ "/" ^ string_of_z d) pts)
+  | "GENPOS" -> let ps = read_paths t in show_bool (general_position ps)
+  | "REGION" -> let tn = next_z t in let td = next_z t in
+      let s = read_paths t in let c = read_paths t in let pts = read_path t in
+      let pr = prep s c tn td pts in
+      let k = next_int t in
+      let res = List.init k (fun _ ->
+        let ct = ct_of_Z (next_z t) in let fr = fr_of_Z (next_z t) in let rev = next_bool t in
+        let out = read_paths t in
+        match check_prep ct fr rev pr out with
+        | [] -> "| 0"
+        | (q :: _) as l -> "| " ^ string_of_int (List.length l) ^ " " ^ show_pt q) in
+      String.concat " " (string_of_int (List.length pr) :: res)
   | c -> "ERR unknown command " ^ c
 
 let () = main_loop handle
